@@ -50,7 +50,7 @@ manifest = {
     }],
     "checks": checks,
     "not_applicable": na,
-    "notes": "See DESIGN.md. Fixed defects and the one known finding are listed in known_findings.json.",
+    "notes": "See DESIGN.md. Fixed defects (each a fix: commit in /repo) and the four known findings are listed in known_findings.json; seeded/ holds 148 independently written breaking changes and what detected them.",
 }
 json.dump(manifest, open(os.path.join(ROOT, "MANIFEST.json"), "w"), indent=1)
 print(f"{len(checks)} checks, {len(na)} not claimed")
